@@ -150,7 +150,23 @@ def r2_union_walk(cx):
         loops = [s for s in walk_body(g.body) if isinstance(s, ast.For)]
         ok = bool(loops) and "get_dependencies(%s)" % p in U(loops[0].iter) and not has_exit(loops[0].body) and any(call_name(x) == g.name for x in find_calls(loops[0].body)) \
             and not any(guard_texts(x, stop=loops[0]) for x in find_calls(loops[0].body) if call_name(x) == g.name)
-        cx.require(ok, g, "a filter on a parser/combiner is propagated down every dependency path to the first datasources", construct=short(loops[0], 120) if loops else "def get_dependency_datasources")
+        what = short(loops[0], 120) if loops else "def get_dependency_datasources"
+        if not ok:
+            # iterative form: work list seeded with the component; a datasource is collected, anything else pushes all its dependencies;
+            # the only thing that may be skipped is a node already visited
+            wl = feat.worklist_walk(g)
+            if wl is not None and wl["start"] == p:
+                cur = wl["cur"]
+                seen_ok = lambda gs: all(t.startswith("%s in " % cur) or t.startswith("%s not in " % cur) for t, pol in gs if t != "plugins.is_datasource(%s)" % cur)
+                push = [pp for pp in wl["pushes"] if U(pp[0]).endswith("get_dependencies(%s)" % cur)]
+                adds = [x for x in find_calls(wl["loop"].body, attr="add") if [U(a) for a in x.args] == [cur] and ("plugins.is_datasource(%s)" % cur, True) in set(guard_texts(x, stop=wl["loop"]))]
+                ok = len(push) == 1 and len(wl["pushes"]) == 1 and ("plugins.is_datasource(%s)" % cur, False) in push[0][1] and seen_ok(push[0][1]) \
+                    and len(adds) == 1 and seen_ok(set(guard_texts(adds[0], stop=wl["loop"]))) and all(seen_ok(sk) and sk for sk in wl["skips"]) \
+                    and not [r_ for r_ in walk_body(wl["loop"].body) if isinstance(r_, (ast.Break, ast.Return))]
+                rets = [r_ for r_ in g.body if isinstance(r_, ast.Return)]
+                ok = ok and len(rets) == 1 and bool(adds) and U(rets[0].value) == U(adds[0].func.value)
+                what = "while %s: %s = %s.pop(); datasource -> collected, else push get_dependencies(%s)" % (wl["work"], cur, wl["work"], cur)
+        cx.require(ok, g, "a filter on a parser/combiner is propagated down every dependency path to the first datasources", construct=what)
     inn = [n for n in af.body if isinstance(n, FUNC_TYPES) and n.name == "inner"]
     reg_calls = [x for x in find_calls(af.body) if call_name(x) == "inner"]
     loop_calls = [x for x in reg_calls if enclosing(x, ast.For) is not None]
